@@ -750,6 +750,12 @@ def check_param_kinds(ctx, r, tag):
                     emits = True
                 if isinstance(x, ast.Starred) and isinstance(x.value, ast.Name) and x.value.id == l:
                     emits = True
+                # `argstr_pieces.extend(<something built from the list>)` / `argstr_pieces += ...`
+                if isinstance(x, ast.Call) and isinstance(x.func, ast.Attribute) and x.func.attr in ("extend", "append") and norm(x.func.value).startswith("argstr") \
+                        and any(isinstance(y, ast.Name) and y.id == l for a in x.args for y in ast.walk(a)):
+                    emits = True
+                if isinstance(x, ast.AugAssign) and norm(x.target).startswith("argstr") and any(isinstance(y, ast.Name) and y.id == l for y in ast.walk(x.value)):
+                    emits = True
                 if isinstance(x, ast.Name) and x.id == l and isinstance(x.ctx, ast.Load):
                     read_anywhere[kind] = True
             if emits:
